@@ -19,12 +19,15 @@ echo "$out" | grep -q "^FAIL\|^--- FAIL\|panic:" || { echo "CONFIRM-FAIL: demo d
 echo "== existing suites on patched tree"
 fails=""
 for m in . cmd/atlas; do
-  o=$(cd $WT/$m && go test -vet=off -count=1 ./... 2>&1 | grep -E "^(FAIL|--- FAIL|panic)" | grep -v "TestGitChangeDetector" | grep -v "internal/migratelint\s" | grep -v "^FAIL$" )
+  o=$(cd $WT/$m && go test -vet=off -count=1 ./... 2>&1 | grep -E "^(FAIL|--- FAIL|panic)" | grep -v "TestGitChangeDetector" | grep -v "TestFormatters" | grep -v "sql/sqltool\s" | grep -v "internal/migratelint\s" | grep -v "^FAIL$" )
   [ -n "$o" ] && fails="$fails\n[$m] $o"
 done
 # migratelint: only TestGitChangeDetector may fail (fails in any git worktree checkout, also unpatched)
 o=$(cd $WT/cmd/atlas && go test -vet=off -count=1 -skip TestGitChangeDetector ./internal/migratelint/ 2>&1 | grep -E "^(FAIL|--- FAIL|panic)")
 [ -n "$o" ] && fails="$fails\n[migratelint] $o"
+# sql/sqltool: TestFormatters is listed as flaky by the baseline (file names stamped with the wall clock); the rest must pass
+o=$(cd $WT && go test -vet=off -count=1 -skip TestFormatters ./sql/sqltool/ 2>&1 | grep -E "^(FAIL|--- FAIL|panic)")
+[ -n "$o" ] && fails="$fails\n[sqltool] $o"
 if [ -n "$fails" ]; then echo -e "CONFIRM-FAIL: existing tests fail with patch:$fails"; git checkout -q -- .; exit 1; fi
 echo "existing suites pass with patch"
 mkdir -p /verif/seeded/$NAME
